@@ -12,9 +12,10 @@ execution order. A child serialized on its own comes back without its parent and
 `save` / `load` / `fileLoad` (Model/Serial.lean) transcribe the per-class `__getstate__` /
 `__setstate__` pipeline; `obs` is the observation the statement talks about: one record per node
 (path = labels and nesting; the node's whole plain state: class, IO values incl. `NOT_DATA`, flags,
-executor instructions, cache, value links, starting nodes, provenance …), every child input's data
-connections IN FETCH ORDER and every child signal output's connections IN FIRING ORDER.  Data
-outputs and signal inputs are compared as sets (`C07_unordered_sides`).
+executor instructions — a live executor object is not state —, cache, value links, starting nodes,
+provenance …), every child input's data connections IN FETCH ORDER and every child signal output's
+connections IN FIRING ORDER.  Data outputs and signal inputs are compared as sets
+(`C07_unordered_sides`).
 
 All theorems quantify over every graph (`Node` is a tree of any width and depth, proofs are by
 structural induction over it).  `Cfg.pinned` is the behaviour of the tree as it is, `Cfg.repaired`
@@ -42,13 +43,13 @@ theorem withDetached_self (g : Node) : g.withDetached (g.core.forState none).det
 /-- FULL STATEMENT (repaired restore), plain pickle / cloudpickle: for every well-formed graph -/
 theorem C07_roundtrip : RoundTripStatement Cfg.repaired := by
   intro g hwf
-  refine ⟨_, load_save_node Cfg.repaired g hwf (fun h => by simp [Cfg.repaired] at h) none, ?_⟩
+  refine ⟨_, load_save_node Cfg.repaired g hwf (fun h => by simp [Cfg.repaired, Cfg.anyPush] at h) none, ?_⟩
   rw [obs_img Cfg.repaired g hwf (atMostOne_of_repaired _ rfl rfl rfl g), withDetached_self]
 
 /-- FULL STATEMENT (repaired restore), file back end -/
 theorem C07_roundtrip_file : FileRoundTripStatement Cfg.repaired := by
   intro g hwf
-  obtain ⟨g', h1, h2⟩ := fileLoad_save Cfg.repaired g hwf (fun h => by simp [Cfg.repaired] at h)
+  obtain ⟨g', h1, h2⟩ := fileLoad_save Cfg.repaired g hwf (fun h => by simp [Cfg.repaired, Cfg.anyPush] at h)
     (atMostOne_of_repaired _ rfl rfl rfl g) none
   exact ⟨g', h1, by rw [h2, withDetached_self]⟩
 
@@ -60,7 +61,7 @@ theorem C07_roundtrip_twice (g : Node) (hwf : WF g) :
   obtain ⟨g₂, h2, o2⟩ := C07_roundtrip_file g hwf
   refine ⟨g₁, g₂, h1, ?_, o1, o2⟩
   have : g₁.core.cls = g.core.cls := by
-    have := load_save_node Cfg.repaired g hwf (fun h => by simp [Cfg.repaired] at h) none
+    have := load_save_node Cfg.repaired g hwf (fun h => by simp [Cfg.repaired, Cfg.anyPush] at h) none
     rw [h1] at this
     injection this with e
     rw [e]; simp [Core.forState]
@@ -74,7 +75,7 @@ composite holds a cache (`AtMostOne`), and re-forging the value links pushes not
 linked values in step, no linked owner running) — for ANY combination of the four repairs the same
 theorem holds with the corresponding hypothesis dropped -/
 theorem C07_roundtrip_partial (cfg : Cfg) (g : Node) (hwf : WF g) (hone : AtMostOne cfg g)
-    (hset : cfg.pushLinks = true → Settled g) :
+    (hset : cfg.anyPush = true → Settled g) :
     (∃ g', load cfg (save none g) = .ok g' ∧ obs [] g' = obs [] g) ∧
     (∃ g', fileLoad cfg g.core.cls (save none g) = .ok g' ∧ obs [] g' = obs [] g) := by
   refine ⟨⟨_, load_save_node cfg g hwf hset none, ?_⟩, ?_⟩
@@ -130,7 +131,7 @@ theorem obs_paths_below : ∀ (n : Node) (p : Path), ∀ r ∈ obs p n, ∃ q, r
 shows what the child showed, remembers where it was (`detached_parent_path = pp`), and carries no
 record of its parent or siblings — nor any connection to them (a node's state holds none) -/
 theorem C07_child_alone (cfg : Cfg) (c : Node) (hwf : WF c) (hone : AtMostOne cfg c)
-    (hset : cfg.pushLinks = true → Settled c) (pp : Path) :
+    (hset : cfg.anyPush = true → Settled c) (pp : Path) :
     ∃ c', load cfg (save (some pp) c) = .ok c' ∧ c'.core.detached = some pp ∧
       obs [] c' = obs [] (c.withDetached (some pp)) ∧
       ∀ r ∈ obs [] c', ∃ q, r.path = [c.core.label] ++ q := by
@@ -286,11 +287,21 @@ theorem wf_w4 : WF w4 := by
   · exact ⟨by decide, by decide, by decide, by decide, by decide, cgCheck_sound _ _ _ _ (by decide),
       cgCheck_sound _ _ _ _ (by decide), by decide, by simp [core0, Kind.hasLinks], trivial⟩
 
-/-- KF-C07-4: the pinned code re-forges value links through the value setter, which refuses to write
-the input of a running node: the mid-run pickle cannot be loaded (`RuntimeError`); with the links
-assigned directly it loads and shows the same state, `running` flags included -/
+/-- the same situation in a for-node (whose `__setstate__` duplicates the macro's) -/
+def w4for : Node :=
+  .mk { core0 0 100 .forLoop [chn 0 (v 5)] [chn 0 .nd] with
+          inLinks := [(0, (1, 0))], outLinks := [((1, 0), 0)], running := true }
+    [.mk { core0 1 1 .leaf [chn 0 (v 5)] [chn 0 .nd] with running := true } [] noC noC] noC noC
+
+/-- KF-C07-4: value links re-forged through the value setter push the value into the receiver, and an
+input refuses to be written while its owner runs: a pickle taken mid-run cannot be loaded
+(`RuntimeError`).  For `Macro` input links the tree assigns directly since 60885c9 (the macro w4 loads
+and shows the same state, `running` flags included); `For.__setstate__` still goes through the setter
+(w4for cannot be loaded); with the links assigned directly everywhere both load -/
 theorem C07_running_link_unloadable :
-    errorOf Cfg.pinned w4 = some .runtime ∧ shows Cfg.repaired w4 = some (obs [] w4) := by decide
+    errorOf { Cfg.pinned with pushIn := true } w4 = some .runtime ∧ shows Cfg.pinned w4 = some (obs [] w4) ∧
+    errorOf Cfg.pinned w4for = some .runtime ∧ shows Cfg.repaired w4for = some (obs [] w4for) ∧
+    shows Cfg.repaired w4 = some (obs [] w4) := by decide
 
 /-- W5 — a child input connected to a channel of a node outside the pickled composite (8 is no child) -/
 def w5 : Node :=
@@ -321,8 +332,9 @@ def w7 : Node :=
     [leaf 1 1 [chn 0 (v 5)] [chn 0 .nd]] noC noC
 
 /-- KF-C07-7: after the pinned `load()` a macro cannot be saved and loaded a second time: the twin that
-owns its channels is pickled along and cannot be set up (it reports value links but has no children);
-a plain node (no links) survives, and so does everything once `load()` takes the channels over -/
+owns its channels is pickled along (`loadHaunted`) and cannot be set up — it reports value links but
+has no children —, whatever the restore variant; a plain node (no links) survives; and without a
+twin (`load()` takes the channels over) the macro round-trips as often as one likes -/
 theorem C07_loaded_macro_not_resavable :
     (match loadHaunted Cfg.pinned none w7 with | .error e => some e | .ok _ => none) = some Err.key ∧
     (match loadHaunted Cfg.repaired none w7 with | .error e => some e | .ok _ => none) = some Err.key ∧
